@@ -193,6 +193,7 @@ def _run_shard(job):
                     state_key = base
                 elif base != state_key:
                     raise common.HarnessError(f"replay of {hist} reached {base}, earlier {state_key}")
+                blind = not adapter._calibrate()["state"]  # hidden flag changes cannot be observed
                 if any(x[1] is None for x in base[1]):
                     # the adapter could not read the hidden exact/broadcastable flag of '*name'
                     # bindings (fallback mode: state parsed from print_bindings()): take the flags
@@ -252,7 +253,7 @@ def _run_shard(job):
                         )
                     if len(samples) < 4 and changed and hist:
                         samples.append(dict(history=hist, args=args, dims=d, shape=list(sh), verdict=str(got), state_after=repr(after)))
-                    if changed or bad is not None:
+                    if changed or bad is not None or (blind and got is True and "*" in d):
                         stats["rebuilds"] += 1
                         return  # rebuild the state in a fresh context
 
